@@ -330,6 +330,8 @@ pub fn flatten__sink_talkback<T>(h: &mut Heap, g: &mut Ghost<G<T>>, c: &Cap, mes
         sink_rel(*old(h), old(g)@, *final(h), final(g)@, *c),
         (message is Terminate || message is Error) ==> nothing_alive(final(g)@), /* @C04 disposal reaches both levels */
         (message is Terminate || message is Error) ==> final(g)@.dn.phase == Dn::EndedBySink, /* @C03 no termination back to a sink that disposed */
+        message is Pull && old(g)@.inners.len() > 0 && old(g)@.inners.last().phase == Up::Live ==> final(g)@.inners[old(g)@.inners.len() - 1].pulls > old(g)@.inners.last().pulls, /* @C11 a Pull goes to the active inner if there is one */
+        message is Pull && !(old(g)@.inners.len() > 0 && old(g)@.inners.last().phase == Up::Live) && old(g)@.outer.phase == Up::Live ==> final(g)@.outer.pulls > old(g)@.outer.pulls, /* @C11 a Pull goes to the outer when no inner is active */
 {
     let outer_talkback = Cell_outer_talkback {}; let inner_talkback = Cell_inner_talkback {};
     proof { g@ = G { dn: dn_recv(g@.dn, message), ..g@ }; }
